@@ -1,6 +1,7 @@
 //! C08 — with the rayon feature the result is independent of thread count and schedule.
 use crate::exec;
 use crate::img::{self, Buf, Comp, Content, Placement};
+use crate::layout::{self, DstOp, LKind, Layout};
 use crate::outcome::*;
 use crate::runner::catch;
 use crate::spec::{AlgSpec, CropSpec, FilterSpec, ResizeSpec};
@@ -54,26 +55,47 @@ fn shape(t: &mut Tape) -> (u32, u32, &'static str) {
 
 #[derive(Clone, Debug)]
 enum Op {
-    Resize(ResizeSpec),
+    Resize(ResizeSpec, Layout),
     MulDiv { divide: bool, inplace: bool, pt: PixelType, w: u32, h: u32, ext: CpuExtensions, content: Content },
 }
 
 fn run_op(op: &Op, src: &[u8], threads: u32) -> Result<(Result<(), String>, Buf), String> {
     match op {
-        Op::Resize(spec) => {
-            let len = spec.dw as usize * spec.dh as usize * spec.pt.size();
-            let mut dst = Buf::new(len);
-            dst.fill(0xA5);
+        Op::Resize(spec, lay) => {
+            let ps = spec.pt.size();
+            let init = vec![0xA5u8; spec.dw as usize * spec.dh as usize * ps];
+            let mut parent = lay.place(ps, &init, |i| (i % 251) as u8, Placement::Heap);
             let opts = spec.options();
-            let r = catch(|| {
-                exec::in_pool(threads, || {
-                    let s = ImageRef::new(spec.sw, spec.sh, src, spec.pt).map_err(|e| format!("{:?}", e))?;
-                    let mut d = Image::from_slice_u8(spec.dw, spec.dh, dst.bytes_mut(), spec.pt).map_err(|e| format!("{:?}", e))?;
-                    let mut rz = img::new_resizer(spec.ext);
-                    rz.resize(&s, &mut d, &opts).map_err(|e| format!("{:?}", e))
-                })
-            })?;
-            Ok((r, dst))
+            struct Rz<'a> {
+                spec: &'a ResizeSpec,
+                src: &'a [u8],
+                opts: &'a fr::ResizeOptions,
+                threads: u32,
+            }
+            impl<'a> DstOp for Rz<'a> {
+                type Out = Result<Result<(), String>, String>;
+                fn run<D: fr::IntoImageViewMut + Send>(self, dst: &mut D) -> Self::Out {
+                    let (spec, src, opts) = (self.spec, self.src, self.opts);
+                    catch(|| {
+                        exec::in_pool(self.threads, || {
+                            let s = ImageRef::new(spec.sw, spec.sh, src, spec.pt).map_err(|e| format!("{:?}", e))?;
+                            let mut rz = img::new_resizer(spec.ext);
+                            rz.resize(&s, dst, opts).map_err(|e| format!("{:?}", e))
+                        })
+                    })
+                }
+            }
+            let r = layout::with_dst_dyn(lay, spec.pt, parent.bytes_mut(), Rz { spec, src, opts: &opts, threads })
+                .map_err(|e| format!("destination container rejected: {}", e))??;
+            if let Some(off) = lay.outside_changed(ps, parent.bytes(), |i| (i % 251) as u8) {
+                return Err(format!(
+                    "bytes outside the destination view were modified at offset {} ({})",
+                    off,
+                    lay.locate(ps, off)
+                ));
+            }
+            let out = Buf::from_bytes(&lay.extract(ps, parent.bytes()));
+            Ok((r, out))
         }
         Op::MulDiv { divide, inplace, pt, w, h, ext, .. } => {
             let len = *w as usize * *h as usize * pt.size();
@@ -186,8 +208,13 @@ fn check(tape: &[u8], _ctx: &Ctx) -> Outcome {
             ext,
             content,
         };
-        let d = format!("resize ({}) {}", sname, spec.desc());
-        (Op::Resize(spec), d)
+        let lay = if t.chance(90) {
+            Layout::decode(&mut t, spec.dw, spec.dh, &[LKind::Cropped, LKind::Nested, LKind::Oversized])
+        } else {
+            Layout::plain(spec.dw, spec.dh)
+        };
+        let d = format!("resize ({}) {} into {}", sname, spec.desc(), lay.desc());
+        (Op::Resize(spec, lay), d)
     };
     let threads = match t.below(4) {
         0 => 2,
@@ -197,7 +224,7 @@ fn check(tape: &[u8], _ctx: &Ctx) -> Outcome {
     };
     let mut o = Outcome::new(format!("{} ; pool of {} threads x3 vs pool of 1", desc, threads));
     let (pt, w, h) = match &op {
-        Op::Resize(s) => (s.pt, s.sw, s.sh),
+        Op::Resize(s, _) => (s.pt, s.sw, s.sh),
         Op::MulDiv { pt, w, h, .. } => (*pt, *w, *h),
     };
     let mut src = img::make_image(pt, w, h, content, Placement::Heap);
@@ -213,7 +240,7 @@ fn check(tape: &[u8], _ctx: &Ctx) -> Outcome {
     let (rref, dref) = match run_op(&op, src.bytes(), 1) {
         Ok(x) => x,
         Err(p) => {
-            o.fail(format!("panic in the 1-thread pool: {}", p));
+            o.fail(format!("failure in the 1-thread pool: {}", p));
             return o;
         }
     };
@@ -221,7 +248,7 @@ fn check(tape: &[u8], _ctx: &Ctx) -> Outcome {
     for rep in 0..3 {
         match run_op(&op, src.bytes(), threads) {
             Err(p) => {
-                o.fail(format!("panic in a pool of {} threads (repetition {}): {}", threads, rep, p));
+                o.fail(format!("failure in a pool of {} threads (repetition {}): {}", threads, rep, p));
                 return o;
             }
             Ok((r, d)) => {
